@@ -79,6 +79,14 @@ def rand_ace(rnd, plat, groups=True):
 def mutate(rnd, plat, a, groups=True):
     """A related ACE: change zero or more fields towards a superset / subset / sibling."""
     b = {k: (list(v) if isinstance(v, list) else v) for k, v in a.items()}
+    if a["proto"] == 6 and len(a["flags"]) >= 1 and rnd.random() < 0.15:
+        # the same entry with flag sets that overlap without one containing the other (and the subset / superset cases)
+        rest = [f for f in FLAGS if f not in a["flags"]]
+        common = rnd.choice(a["flags"])
+        b["flags"] = rnd.choice([sorted({common, rnd.choice(rest)}) if rest else list(a["flags"]),
+                                 sorted(set(a["flags"]) | {rnd.choice(rest)}) if rest else list(a["flags"]),
+                                 [common]])
+        return b
     for _ in range(rnd.choice([0, 1, 1, 2, 3])):
         f = rnd.choice(["permit", "proto", "src", "dst", "sport", "dport", "flags", "logs"])
         if f == "permit":
@@ -117,7 +125,13 @@ def mutate(rnd, plat, a, groups=True):
                     b[f] = rand_port(rnd, plat)
                 else:
                     ps = sorted(port_set(cur))
-                    if ps and rnd.random() < 0.5:
+                    gaps = [x for x in range(ps[0], ps[-1] + 1) if x not in set(ps)][:50] if ps and len(ps) <= 50 else []
+                    if gaps and rnd.random() < 0.5:
+                        # inside the bounds of a multi-port list, but not in it (the list is not an interval)
+                        b[f] = rnd.choice([("eq", [rnd.choice(gaps)]), ("range", [ps[0], ps[-1]]),
+                                           ("eq", sorted({ps[0], rnd.choice(gaps)})) if plat == "ios" else ("eq", [gaps[0]]),
+                                           ("lt", [ps[-1]]), ("gt", [ps[0]])])
+                    elif ps and rnd.random() < 0.5:
                         b[f] = ("range", [max(1, ps[0] - rnd.randint(0, 5)), min(65535, ps[-1] + rnd.randint(0, 5))])
                     elif ps:
                         b[f] = ("eq", [rnd.choice(ps)])
@@ -177,12 +191,39 @@ def spell_ace(rnd, plat, a, proto_names=None):
     return {"text": text, "fields": fields, "src_members": ms, "dst_members": md}
 
 
-def build_impl(ca, plat, sp, version="0"):
+DECOY = {"ios": ["host 203.0.113.9", "198.51.100.0 0.0.0.255"], "nxos": ["host 203.0.113.9", "198.51.100.0/24"]}
+
+
+def build_impl(ca, plat, sp, version="0", history=0):
+    """history=0: members attached once.  history>0: the object first carries other members and answers queries
+    (so that anything memoised is filled), then its members are replaced (1), edited in place (2) or
+    popped/appended (3) to become the stated ones."""
     o = ca.Ace(sp["text"], platform=plat, version=version)
-    if sp["src_members"] is not None:
-        o.srcaddr.items = list(sp["src_members"])
-    if sp["dst_members"] is not None:
-        o.dstaddr.items = list(sp["dst_members"])
+    for side, key in ((o.srcaddr, "src_members"), (o.dstaddr, "dst_members")):
+        mem = sp[key]
+        if mem is None:
+            continue
+        if not history:
+            side.items = list(mem)
+            continue
+        side.items = list(DECOY[plat])
+        _ = side.ipnets()
+        try:
+            o.shadow_of(ca.Ace("permit ip any any", platform=plat))
+            ca.Ace("permit ip any any", platform=plat).shadow_of(o)
+        except Exception:  # noqa
+            pass
+        if history == 1 or not mem:
+            side.items = list(mem)
+        elif history == 2:
+            side.items = list(DECOY[plat])[:1] * len(mem)
+            for it, line in zip(side.items, mem):
+                it.line = line
+        else:
+            while side.items:
+                side.items.pop()
+            for line in mem:
+                side.items.append(ca.Address(line, platform=plat))
     return o
 
 
